@@ -1,6 +1,6 @@
 import ScVerif.C01.OptsLemmas
 import ScVerif.C01.IdLemmas
-import ScVerif.C01.Flat
+import ScVerif.C01.Props
 /-!
 # C01 — property theorems, part 2: option LISTS and intercepted ids
 
@@ -137,6 +137,37 @@ theorem C01_collection_refines_opts (cfg : Cfg M K R) (h : EqRefl cfg.ops) (reco
   rw [runO_eq]
   exact run_refines cfg h _ _ (nodupKeys_init cfg records rng)
 
+/-- Value ⊑ register, on option lists. -/
+theorem C01_value_refines_opts (cfg : Cfg M K R) (h : EqRefl cfg.ops) (ops : List (VOpO M K)) (s : VState M) :
+    Value.runO cfg s ops = Spec.vrun cfg s (ops.map (compileVOp cfg.ops)) := by
+  rw [vrunO_eq, value_set_run cfg h]
+where
+  value_set_run (cfg : Cfg M K R) (h : EqRefl cfg.ops) : ∀ (ops : List (VOp M K)) (s : VState M),
+      Value.run cfg s ops = Spec.vrun cfg s ops := by
+    intro ops
+    induction ops with
+    | nil => intro s; rfl
+    | cons op ops ih =>
+      intro s
+      cases op with
+      | get ro => simp only [Value.run, Spec.vrun, Value.step, Spec.vstep, Value.get, ih]
+      | set msg wr => simp only [Value.run, Spec.vrun, Value.step, Spec.vstep, value_set_eq cfg h, ih]
+
+/-- Which fields a write may touch, as a function of its option list: `WithAllFieldsWritable` anywhere in
+the list lifts the resource's restriction whatever else is given; otherwise the writable fields are the
+resource's united with the masks of ALL `WithMoreWritableFields` options (none of them is lost, wherever
+they stand); a resource without a restriction has none.  No other option has a say. -/
+theorem C01_writable_options (cfg : Cfg M K R) (opts : List (WOpt M K)) :
+    (fieldUpdater cfg (computeWriteConfig cfg.ops opts)).writable =
+      if opts.any WOpt.isAllWritable then none
+      else cfg.writable.map (fun w => cfg.ops.union w (moreWritableOf cfg.ops opts none)) := by
+  have hf := foldl_writable cfg.ops opts ({} : WriteReq M K)
+  unfold fieldUpdater computeWriteConfig
+  simp only [hf.1, hf.2, Bool.false_or]
+  cases opts.any WOpt.isAllWritable with
+  | true => rfl
+  | false => cases cfg.writable <;> rfl
+
 /-- Delete goes through the id interceptor: it acts on `icpt id`. What it returns is the message stored
 there; a successful delete of a present item emits exactly one event, a REMOVE of `icpt id` carrying
 that message (none if the item is absent and allow-missing is set); nothing is reported through the id
@@ -248,6 +279,133 @@ theorem C01_update_intercepted (cfg : Cfg M K R) (h : EqRefl cfg.ops) (s : CStat
   | createFailed id1 calls t1 c _ hr _ _ _ => cases hok
   | updated id1 calls t1 it new _ hr _ _ _ => exact commit _ _ _ _ _ _ hr
   | created id1 calls t1 new _ hr _ _ _ => exact commit _ _ _ _ _ _ hr
+
+/-- Read your writes, through the interceptor, for ANY interceptor (no idempotence needed when the id is
+given): after a successful Update/Add under a given (not generated) id, `Get` of the same id — under any
+read options — returns the read-mask projection of exactly the message the call returned; after a
+successful Delete, `Get` of the same id finds nothing. -/
+theorem C01_read_your_writes (cfg : Cfg M K R) (h : EqRefl cfg.ops) (s : CState M R) (id : String) (msg : M)
+    (wr : WriteReq M K) (ro : ReadReq M K) :
+    ((Coll.update cfg s id msg wr).1.err = none → (icptId cfg id = "" && wr.genEmptyID) = false →
+      ∃ new, (Coll.update cfg s id msg wr).1.val = some new ∧
+        Coll.get cfg (Coll.update cfg s id msg wr).2 id ro = some (cfg.ops.filter ro.readMask new)) ∧
+    ((Coll.delete cfg s id wr).1.err = none → Coll.get cfg (Coll.delete cfg s id wr).2 id ro = none) := by
+  constructor
+  · intro hok hgen
+    obtain ⟨id', new, t, kind, old, hid, hval, hev, _, hst, _⟩ := C01_update_intercepted cfg h s id msg wr hok
+    refine ⟨new, hval, ?_⟩
+    -- the id was not generated: the event carries the interceptor's image of the given id
+    have hid' : id' = icptId cfg id := by
+      have he := coll_update_eq cfg h s id msg wr
+      rw [he.1] at hok hev
+      have ho := spec_update_outcome cfg (abs s) id msg wr
+      generalize Spec.update cfg (abs s) id msg wr = r at hok hev ho
+      have res : ∀ id1 calls t1, Resolved cfg (abs s) id wr id1 calls t1 → id1 = icptId cfg id := by
+        intro id1 calls t1 hr
+        rcases hr with ⟨_, e, _, _⟩ | ⟨hg, _⟩
+        · exact e
+        · rw [hgen] at hg; cases hg
+      have fromCommit : ∀ (id1 : String) (calls : List String) (n : Nat) (t1 : SState M R) (o : Option M) (nw : M),
+          (Spec.commit cfg wr t1 id1 o nw calls n).1.events =
+            [{ id := id', time := t, kind := kind, old := old, new := some new }] → id' = id1 := by
+        intro id1 calls n t1 o nw hc
+        unfold Spec.commit at hc
+        cases hw : wr.writeTime <;> simp [hw] at hc <;> exact hc.1.symm
+      cases ho with
+      | invalid c _ => cases hok
+      | exhausted rng' _ _ _ => cases hok
+      | alreadyExists id1 calls t1 it _ hr _ _ => cases hok
+      | precondition id1 calls t1 it c _ hr _ _ _ => cases hok
+      | notFound id1 calls t1 _ hr _ _ => cases hok
+      | createFailed id1 calls t1 c _ hr _ _ _ => cases hok
+      | updated id1 calls t1 it nw _ hr _ _ _ => rw [fromCommit _ _ _ _ _ _ hev]; exact res _ _ _ hr
+      | created id1 calls t1 nw _ hr _ _ _ => rw [fromCommit _ _ _ _ _ _ hev]; exact res _ _ _ hr
+    unfold Coll.get
+    rw [← hid']
+    cases hl : lookup (Coll.update cfg s id msg wr).2.items id' with
+    | none => rw [hl] at hst; simp at hst
+    | some it =>
+      rw [hl] at hst
+      simp only [Option.map_some, Option.some.injEq] at hst
+      simp [hst]
+  · intro hok
+    have hk := (C01_delete_intercepted cfg h s id wr hok).2.2.2.2 (icptId cfg id)
+    unfold Coll.get
+    rw [hk]
+    simp
+
+/-- A generated id is usable for a later UPDATE (with `C01_genid_interceptor`: Get and Delete): under an
+idempotent, non-emptiness-preserving id interceptor, after a successful generating call any later
+`Update id' msg2 wr2` that does not expect absence and passes mask validation is an update OF THE ITEM JUST
+CREATED: its preconditions and interceptors see the created message, it never answers NotFound, never
+generates another id, and on success announces an UPDATE of `id'` whose old value is the created message. -/
+theorem C01_genid_usable_update (cfg : Cfg M K R) (h : EqRefl cfg.ops) (s : CState M R) (id : String) (msg : M)
+    (wr : WriteReq M K)
+    (hidem : ∀ x, icptId cfg (icptId cfg x) = icptId cfg x)
+    (hne : ∀ x, x ≠ "" → icptId cfg x ≠ "")
+    (hgen : icptId cfg id = "" ∧ wr.genEmptyID = true)
+    (hok : (Coll.update cfg s id msg wr).1.err = none)
+    (msg2 : M) (wr2 : WriteReq M K) (hxa : wr2.expectAbsent = false)
+    (hv : cfg.ops.validate (fieldUpdater cfg wr2) msg2 = none) :
+    ∃ id' new,
+      (Coll.update cfg s id msg wr).1.val = some new ∧
+      (Coll.update cfg s id msg wr).1.idCalls = (if wr.idCb then [id'] else []) ∧
+      (Coll.update cfg (Coll.update cfg s id msg wr).2 id' msg2 wr2).1.idCalls = [] ∧
+      match Spec.newValue cfg.ops wr2 (fieldUpdater cfg wr2) msg2 (some new) new with
+      | .error c => (Coll.update cfg (Coll.update cfg s id msg wr).2 id' msg2 wr2).1.err = some c
+      | .ok new2 =>
+        (Coll.update cfg (Coll.update cfg s id msg wr).2 id' msg2 wr2).1.val = some new2 ∧
+        ∃ t, (Coll.update cfg (Coll.update cfg s id msg wr).2 id' msg2 wr2).1.events =
+          [{ id := id', time := t, kind := .update, old := some new, new := some new2 }] := by
+  obtain ⟨id', new, h1, _, _, h4, h5, _, cand, hc1, hc2⟩ := C01_genid cfg h s id msg wr hgen hok
+  have hfix : icptId cfg id' = id' := by rw [hc2]; exact hidem cand
+  have hne' : id' ≠ "" := by rw [hc2]; exact hne cand hc1
+  refine ⟨id', new, h1, h4, ?_⟩
+  generalize (Coll.update cfg s id msg wr).2 = s1 at h5 ⊢
+  have he := coll_update_eq cfg h s1 id' msg2 wr2
+  rw [he.1]
+  have hg : (icptId cfg id' = "" && wr2.genEmptyID) = false := by simp [hfix, hne']
+  cases hl : lookup s1.items id' with
+  | none => rw [hl] at h5; simp at h5
+  | some it =>
+    rw [hl] at h5
+    simp only [Option.map_some, Option.some.injEq] at h5
+    have habs : (abs s1).m id' = some it := hl
+    have ho := spec_update_outcome cfg (abs s1) id' msg2 wr2
+    generalize Spec.update cfg (abs s1) id' msg2 wr2 = r at ho
+    have res : ∀ id1 calls t1, Resolved cfg (abs s1) id' wr2 id1 calls t1 → id1 = id' ∧ calls = [] := by
+      intro id1 calls t1 hr
+      rcases hr with ⟨_, e, ec, _⟩ | ⟨hg', _⟩
+      · exact ⟨by rw [e, hfix], ec⟩
+      · rw [hg] at hg'; cases hg'
+    cases ho with
+    | invalid c hv' => rw [hv] at hv'; cases hv'
+    | exhausted rng' _ hg' _ => rw [hg] at hg'; cases hg'
+    | alreadyExists id1 calls t1 it' _ hr _ hxa' => rw [hxa] at hxa'; cases hxa'
+    | precondition id1 calls t1 it' c _ hr hl' _ hn =>
+      obtain ⟨e1, e2⟩ := res _ _ _ hr
+      subst e1 e2
+      rw [habs] at hl'; cases hl'
+      rw [h5] at hn
+      rw [hn]
+      exact ⟨rfl, rfl⟩
+    | updated id1 calls t1 it' new2 _ hr hl' _ hn =>
+      obtain ⟨e1, e2⟩ := res _ _ _ hr
+      subst e1 e2
+      rw [habs] at hl'; cases hl'
+      rw [h5] at hn ⊢
+      rw [hn]
+      unfold Spec.commit
+      cases wr2.writeTime <;> simp
+    | notFound id1 calls t1 _ hr hl' _ =>
+      obtain ⟨e1, _⟩ := res _ _ _ hr
+      subst e1; rw [habs] at hl'; cases hl'
+    | createFailed id1 calls t1 c _ hr hl' _ _ =>
+      obtain ⟨e1, _⟩ := res _ _ _ hr
+      subst e1; rw [habs] at hl'; cases hl'
+    | created id1 calls t1 new2 _ hr hl' _ _ =>
+      obtain ⟨e1, _⟩ := res _ _ _ hr
+      subst e1; rw [habs] at hl'; cases hl'
 
 /-! ## Non-vacuity -/
 
